@@ -23,6 +23,8 @@ use std::borrow::Cow;
 const UID: usize = 32;
 const COOKIE: usize = 16;
 const B: usize = 152;
+/// header byte 0 of the response: leap 3 (unknown), version 4, mode 4 (server)
+const RESP_B0: u8 = 0xE4;
 
 #[derive(Clone, Copy)]
 struct Layout {
@@ -48,13 +50,29 @@ const RESP: Layout = {
     Layout { nts, nonce: nts + 8, ct: nts + 8 + NONCE_LEN, end: nts + 8 + NONCE_LEN + ct_len, total: nts + 8 + NONCE_LEN + ct_len + 4 }
 };
 
-/// The valid request, encoded by the real serializer, plus 4 arbitrary trailer bytes.
-fn build_request(cookie: &[u8; COOKIE], trailer: [u8; 4]) -> [u8; B] {
+/// The valid request image: header (byte 0 = 0x23: leap 0, version 4, client; everything else
+/// arbitrary), unique id field, cookie field (type/length words as RFC 7822/8915 lay them out),
+/// then the authenticator written by the REAL `ExtensionField::encode_encrypted` (hook wrapper)
+/// with the model cipher over exactly these bytes, then 4 arbitrary trailer bytes.
+/// `c25_req_real_serializer` shows that `NtpPacket::serialize` of `nts_poll_message` produces
+/// exactly this image (the generic serializer is too expensive to run inside every tamper harness:
+/// its field vectors live on the heap, where CBMC loses all constants).
+fn assemble_request(hdr: &[u8; 48], uid: &[u8; UID], cookie: &[u8; COOKIE], trailer: [u8; 4]) -> [u8; B] {
     let mut out = [0u8; B];
-    let (p, _id) = NtpPacket::nts_poll_message(cookie, 1, PollInterval::default());
-    let n = encode(&p, &ModelCipher::new(0), &mut out);
-    assert!(matches!(n, Ok(x) if x == REQ.end), "request has the RFC 8915 layout size");
+    out[..48].copy_from_slice(hdr);
+    out[52..52 + UID].copy_from_slice(uid);
+    out[88..88 + COOKIE].copy_from_slice(cookie);
     out[REQ.end..REQ.end + 4].copy_from_slice(&trailer);
+    out[0] = 0x23;
+    pin_ef(&mut out, 48, T_UID, (4 + UID) as u16);
+    pin_ef(&mut out, 84, T_COOKIE, (4 + COOKIE) as u16);
+    {
+        let mut cur = std::io::Cursor::new(&mut out[..REQ.end]);
+        cur.set_position(REQ.nts as u64);
+        let r = ntp_proto::verif::packet::extension_fields::encode_encrypted_hook(&mut cur, &[], &ModelCipher::new(0), ntp_proto::ExtensionHeaderVersion::V4);
+        assert!(r.is_ok(), "authenticator encoded");
+        assert!(cur.position() as usize == REQ.end, "authenticator has the RFC 8915 size");
+    }
     // the authenticator as the RFC lays it out (independent check of the encoder)
     assert!(get16(&out, REQ.nts) == T_NTS, "authenticator type");
     assert!(get16(&out, REQ.nts + 2) as usize == REQ.end - REQ.nts, "authenticator length");
@@ -63,30 +81,30 @@ fn build_request(cookie: &[u8; COOKIE], trailer: [u8; 4]) -> [u8; B] {
     out
 }
 
-/// The valid response: header bytes arbitrary (mode 4, version 4), unique id authenticated, one
-/// new cookie encrypted.
-fn build_response(hdr: &[u8; 48], uid: &[u8; UID], cookie: &[u8; COOKIE], trailer: [u8; 4]) -> [u8; B] {
+/// The valid response image: header (byte 0 = 0xE4: leap 3, version 4, server), unique id field,
+/// authenticator written by the real `encode_encrypted` over one new cookie.
+fn assemble_response(hdr: &[u8; 48], uid: &[u8; UID], cookie: &[u8; COOKIE], trailer: [u8; 4]) -> [u8; B] {
     let mut out = [0u8; B];
-    let header = match NtpPacket::deserialize(&hdr[..], &NoCipher) {
-        Ok((p, _)) => p.header(),
-        Err(_) => {
-            assert!(false, "48-byte v4 header decodes");
-            unreachable!()
-        }
-    };
-    let p = ph::packet_from_parts(
-        header,
-        vec![Ef::UniqueIdentifier(Cow::Owned(uid.to_vec()))],
-        vec![Ef::NtsCookie(Cow::Owned(cookie.to_vec()))],
-        vec![],
-    );
-    let n = encode(&p, &ModelCipher::new(1), &mut out);
-    assert!(matches!(n, Ok(x) if x == RESP.end), "response has the RFC 8915 layout size");
+    out[..48].copy_from_slice(hdr);
+    out[52..52 + UID].copy_from_slice(uid);
     out[RESP.end..RESP.end + 4].copy_from_slice(&trailer);
+    out[0] = RESP_B0;
+    pin_ef(&mut out, 48, T_UID, (4 + UID) as u16);
+    {
+        let enc = [Ef::NtsCookie(Cow::Borrowed(&cookie[..]))];
+        let mut cur = std::io::Cursor::new(&mut out[..RESP.end]);
+        cur.set_position(RESP.nts as u64);
+        let r = ntp_proto::verif::packet::extension_fields::encode_encrypted_hook(&mut cur, &enc, &ModelCipher::new(1), ntp_proto::ExtensionHeaderVersion::V4);
+        assert!(r.is_ok(), "authenticator encoded");
+        assert!(cur.position() as usize == RESP.end, "authenticator has the RFC 8915 size");
+        std::mem::forget(enc);
+    }
     assert!(get16(&out, RESP.nts) == T_NTS, "authenticator type");
     assert!(get16(&out, RESP.nts + 2) as usize == RESP.end - RESP.nts, "authenticator length");
     assert!(get16(&out, RESP.nts + 4) as usize == NONCE_LEN, "nonce length word");
     assert!(get16(&out, RESP.nts + 6) as usize == 4 + COOKIE + TAG_LEN, "ciphertext length word");
+    // the model leaves the plaintext in place: the encrypted cookie field
+    assert!(get16(&out, RESP.ct) == T_COOKIE && get16(&out, RESP.ct + 2) as usize == 4 + COOKIE, "encrypted cookie field");
     out
 }
 
@@ -157,34 +175,96 @@ fn tamper(orig: &[u8; B], l: Layout, key: u8, lo: usize, hi: usize, n_auth: usiz
 }
 
 fn request(lo: usize, hi: usize) -> u8 {
-    stubs::symbolic_rng();
     symbolic_model_randomness();
+    let hdr: [u8; 48] = kani::any();
+    let uid: [u8; UID] = kani::any();
     let cookie: [u8; COOKIE] = kani::any();
     let trailer: [u8; 4] = kani::any();
-    let orig = build_request(&cookie, trailer);
+    let orig = assemble_request(&hdr, &uid, &cookie, trailer);
     tamper(&orig, REQ, 0, lo, hi, 2, 0)
 }
 
 fn response(lo: usize, hi: usize) -> u8 {
     symbolic_model_randomness();
-    let mut hdr: [u8; 48] = kani::any();
+    let hdr: [u8; 48] = kani::any();
     let uid: [u8; UID] = kani::any();
     let cookie: [u8; COOKIE] = kani::any();
     let trailer: [u8; 4] = kani::any();
-    hdr[0] = (hdr[0] & 0xC0) | (4 << 3) | 4;
-    let orig = build_response(&hdr, &uid, &cookie, trailer);
+    let orig = assemble_response(&hdr, &uid, &cookie, trailer);
     tamper(&orig, RESP, 1, lo, hi, 1, 1)
 }
 
-// Global unwind bound: 10 for regions that cannot change a type/length word (largest real loop:
-// the 8 draws of symbolic_rng); 40 where a type word may turn a 32-byte body into a placeholder
+/// The public request constructor + the real `NtpPacket::serialize` produce exactly the image the
+/// tamper harnesses start from (same header bytes, unique id, cookie, same model randomness).
+pharness! {
+    #[kani::unwind(10)]
+    fn c25_req_real_serializer() {
+        stubs::symbolic_rng();
+        symbolic_model_randomness();
+        let cookie: [u8; COOKIE] = kani::any();
+        let mut real = [0u8; B];
+        let (p, id) = NtpPacket::nts_poll_message(&cookie, 1, PollInterval::default());
+        let n = encode(&p, &ModelCipher::new(0), &mut real);
+        assert!(matches!(n, Ok(x) if x == REQ.end), "request has the RFC 8915 layout size");
+        std::mem::forget(p);
+        let uid = match ph::request_identifier_parts(id).1 {
+            Some(u) => u,
+            None => {
+                assert!(false, "NTS request carries a unique id");
+                return;
+            }
+        };
+        let mut hdr = [0u8; 48];
+        hdr.copy_from_slice(&real[..48]);
+        assert!(hdr[0] == 0x23, "poll message is an NTPv4 client packet");
+        symbolic_model_randomness_keep();
+        let img = assemble_request(&hdr, &uid, &cookie, [0; 4]);
+        assert!(real[..REQ.end] == img[..REQ.end], "serializer output == assembled image");
+        kani::cover!(real[60] == 0x5A && real[140] == 0xA5, "arbitrary unique id and tag");
+    }
+}
+pharness! {
+    #[kani::unwind(10)]
+    fn c25_resp_real_serializer() {
+        symbolic_model_randomness();
+        let mut hdr: [u8; 48] = kani::any();
+        let uid: [u8; UID] = kani::any();
+        let cookie: [u8; COOKIE] = kani::any();
+        hdr[0] = RESP_B0;
+        let header = match NtpPacket::deserialize(&hdr[..], &NoCipher) {
+            Ok((p, _)) => p.header(),
+            Err(e) => {
+                std::mem::forget(e);
+                assert!(false, "48-byte v4 header decodes");
+                return;
+            }
+        };
+        let p = ph::packet_from_parts(
+            header,
+            vec![Ef::UniqueIdentifier(Cow::Owned(uid.to_vec()))],
+            vec![Ef::NtsCookie(Cow::Owned(cookie.to_vec()))],
+            vec![],
+        );
+        let mut real = [0u8; B];
+        let n = encode(&p, &ModelCipher::new(1), &mut real);
+        assert!(matches!(n, Ok(x) if x == RESP.end), "response has the RFC 8915 layout size");
+        std::mem::forget(p);
+        symbolic_model_randomness_keep();
+        let img = assemble_response(&hdr, &uid, &cookie, [0; 4]);
+        assert!(real[..RESP.end] == img[..RESP.end], "serializer output == assembled image");
+        kani::cover!(real[60] == 0x5A && real[140] == 0xA5, "arbitrary unique id and tag");
+    }
+}
+
+// Global unwind bound: 5 for regions that cannot change a type/length word (field loop: 3 fields +
+// exit; the decrypted plaintext lives on the heap, its field loop runs to the bound); 40 where a type word may turn a 32-byte body into a placeholder
 // (33 iterations of its all-zero check).
 macro_rules! tamper_harness {
     ($name:ident, $f:ident, $lo:expr, $hi:expr, [$($code:expr => $msg:expr),*]) => {
-        tamper_harness!($name, $f, $lo, $hi, 10, [$($code => $msg),*]);
+        tamper_harness!($name, $f, $lo, $hi, 5, [$($code => $msg),*]);
     };
     ($name:ident, $f:ident, $lo:expr, $hi:expr, $unw:expr, [$($code:expr => $msg:expr),*]) => {
-        harness! {
+        pharness! {
             #[kani::unwind($unw)]
             fn $name() {
                 let code = $f($lo, $hi);
